@@ -128,6 +128,7 @@ func RunWorker(id, tier string, shard, nshards int, outPath string) error {
 			ex := NewExplorer(id, ph.Body, ph.Bounds, sh, ns, ph.ShardDepth)
 			if ph.Stateful {
 				ex.selfCheck = 0
+				ex.Repass = 0
 			}
 			ex.Deadline = dl
 			func() {
@@ -156,6 +157,7 @@ func RunWorker(id, tier string, shard, nshards int, outPath string) error {
 				st.Violations[i].Detail = map[string]any{}
 			}
 			st.Violations[i].Detail["phase"] = ph.Name
+			st.Violations[i].Detail["worker"] = fmt.Sprintf("%d/%d", shard, nshards)
 		}
 		out.Phases[ph.Name] = st
 		var o, n []uint64
@@ -452,7 +454,12 @@ func RunCheck(id, tier string, nworkers int) int {
 					vs, _ = ex.Replay(v.Choices, v.Labels, 5)
 				}()
 				if diverged != "" {
-					unconfirmed = append(unconfirmed, fmt.Sprintf("%s (phase %s): %s", v.Sig, name, firstLine(diverged)))
+					if rerunShardReproduces(self, id, tier, tmp, name, v) {
+						v.Detail["confirmation"] = "history-dependent: does not reproduce in isolation but reproduces when the worker shard is re-run from its start in a fresh process (the library keeps state between calls)"
+						unknown = append(unknown, v)
+					} else {
+						unconfirmed = append(unconfirmed, fmt.Sprintf("%s (phase %s): %s", v.Sig, name, firstLine(diverged)))
+					}
 					continue
 				}
 				found := false
@@ -467,7 +474,12 @@ func RunCheck(id, tier string, nworkers int) int {
 					}
 				}
 				if !found {
-					unconfirmed = append(unconfirmed, fmt.Sprintf("%s (phase %s): not reproduced on replay", v.Sig, name))
+					if rerunShardReproduces(self, id, tier, tmp, name, v) {
+						v.Detail["confirmation"] = "history-dependent: does not reproduce in isolation but reproduces when the worker shard is re-run from its start in a fresh process (the library keeps state between calls)"
+						unknown = append(unknown, v)
+					} else {
+						unconfirmed = append(unconfirmed, fmt.Sprintf("%s (phase %s): not reproduced on replay", v.Sig, name))
+					}
 					continue
 				}
 			} else if ph.ReplayCustom != nil {
@@ -625,6 +637,40 @@ func RunCheck(id, tier string, nworkers int) int {
 	}
 	fmt.Printf("%s: %d violation(s) in total, %d distinct signature(s) not listed as known\n", id, totalViol, len(printed))
 	return 1
+}
+
+// rerunShardReproduces re-runs the worker shard that reported v in a fresh process and reports
+// whether the same violation (signature and choice list) is found again.
+func rerunShardReproduces(self, id, tier, tmp, phase string, v Violation) bool {
+	w, _ := v.Detail["worker"].(string)
+	var shard, n int
+	if _, err := fmt.Sscanf(w, "%d/%d", &shard, &n); err != nil || n < 1 {
+		return false
+	}
+	out := filepath.Join(tmp, fmt.Sprintf("rerun-%d-%d.json", shard, time.Now().UnixNano()))
+	cmd := exec.Command(self, "-prop", id, "-tier", tier, "-shard", strconv.Itoa(shard), "-nshards", strconv.Itoa(n), "-out", out)
+	cmd.Env = append(os.Environ(), "GOMAXPROCS=2")
+	if err := cmd.Run(); err != nil {
+		return false
+	}
+	b, err := os.ReadFile(out)
+	if err != nil {
+		return false
+	}
+	var wo workerOut
+	if json.Unmarshal(b, &wo) != nil {
+		return false
+	}
+	st := wo.Phases[phase]
+	if st == nil {
+		return false
+	}
+	for _, x := range st.Violations {
+		if x.Sig == v.Sig && fmt.Sprint(x.Choices) == fmt.Sprint(v.Choices) {
+			return true
+		}
+	}
+	return false
 }
 
 func firstLine(s string) string {
